@@ -134,6 +134,9 @@ func (c *Ctx) DeclOf(fn *types.Func) *ast.FuncDecl {
 	if fn == nil || fn.Pkg() != c.Types {
 		return nil
 	}
+	if o := fn.Origin(); o != nil {
+		fn = o // a method of an instantiated generic type is declared once, on the generic type
+	}
 	for _, fd := range c.decls {
 		if c.Info.Defs[fd.Name] == fn {
 			return fd
